@@ -1,18 +1,64 @@
-/-! Prototype: IEEE-754 round-to-nearest-even to 53 bits as a *relation* on integers -/
+/-! C19: IEEE-754 round-to-nearest-even to 53 bits as a *relation* on integers (core Lean only; the
+    driver `Drivers/Num.lean` asserts it on every value the executable model computes). -/
 namespace Spine.Rnd
 
-/-- `m * 2^e` is the binary64 nearest to `n / d` (ties to even), `n, d > 0`, normal range:
-    cross-multiplied so that only natural numbers occur. `lo`/`hi` scale numerator and denominator
-    by the power of two of the exponent. -/
+/-- `m * 2^e` is the binary64 nearest to `n / d` (ties to even), `n, d > 0`, normal range, exponent
+    unbounded: cross-multiplied so that only natural numbers occur. `N`/`D` scale numerator and
+    denominator by the power of two of the exponent.
+    The last conjunct is the binade boundary: below `2^52 * 2^e` the doubles are spaced `2^(e-1)`, so
+    `2^52 * 2^e` is the nearest double only down to a *quarter* of a unit below it (without this conjunct
+    the relation would not be functional: `(2^53 - 3/4) * 2^e` would be related to both
+    `(2^53 - 1, e)` and `(2^52, e + 1)`). -/
 def IsRnd (n d m : Nat) (e : Int) : Prop :=
   let N := n * 2 ^ (-e).toNat        -- numerator, scaled when e < 0
   let D := d * 2 ^ e.toNat           -- denominator, scaled when e ≥ 0
   2 ^ 52 ≤ m ∧ m < 2 ^ 53 ∧
   -- |m * D - N| * 2 ≤ D, and on a tie m is even
   (2 * (m * D) ≤ 2 * N + D) ∧ (2 * N ≤ 2 * (m * D) + D) ∧
-  ((2 * (m * D) = 2 * N + D ∨ 2 * N = 2 * (m * D) + D) → m % 2 = 0)
+  ((2 * (m * D) = 2 * N + D ∨ 2 * N = 2 * (m * D) + D) → m % 2 = 0) ∧
+  (m = 2 ^ 52 → 4 * (m * D) ≤ 4 * N + D)
 
 instance (n d m : Nat) (e : Int) : Decidable (IsRnd n d m e) := by unfold IsRnd; infer_instance
+
+@[noinline] def p52 : Nat := 2 ^ 52
+@[noinline] def p53 : Nat := 2 ^ 53
+
+/-- executable form for the driver (shares the scaled numerator and denominator; named constants
+    because the compiled code re-parses a literal of this size at every use) -/
+def isRndB (n d m : Nat) (e : Int) : Bool :=
+  let N := n <<< (-e).toNat
+  let D := d <<< e.toNat
+  let mD := m * D
+  decide (p52 ≤ m) && decide (m < p53) && decide (2 * mD ≤ 2 * N + D) && decide (2 * N ≤ 2 * mD + D) &&
+  ((2 * mD != 2 * N + D && 2 * N != 2 * mD + D) || m % 2 == 0) &&
+  (m != p52 || decide (4 * mD ≤ 4 * N + D))
+
+theorem isRndB_iff (n d m : Nat) (e : Int) : isRndB n d m e = true ↔ IsRnd n d m e := by
+  unfold isRndB IsRnd p52 p53
+  simp only [Nat.shiftLeft_eq, Bool.and_eq_true, Bool.or_eq_true, decide_eq_true_eq, bne_iff_ne, ne_eq, beq_iff_eq]
+  constructor
+  · rintro ⟨⟨⟨⟨⟨h1, h2⟩, h3⟩, h4⟩, h5⟩, h6⟩
+    refine ⟨h1, h2, h3, h4, ?_, ?_⟩
+    · intro ht
+      rcases h5 with ⟨a, b⟩ | h
+      · rcases ht with ht | ht
+        · exact absurd ht a
+        · exact absurd ht b
+      · exact h
+    · intro hm
+      rcases h6 with h | h
+      · exact absurd hm h
+      · exact h
+  · rintro ⟨h1, h2, h3, h4, h5, h6⟩
+    refine ⟨⟨⟨⟨⟨h1, h2⟩, h3⟩, h4⟩, ?_⟩, ?_⟩
+    · by_cases a : 2 * (m * (d * 2 ^ e.toNat)) = 2 * (n * 2 ^ (-e).toNat) + d * 2 ^ e.toNat
+      · exact Or.inr (h5 (Or.inl a))
+      · by_cases b : 2 * (n * 2 ^ (-e).toNat) = 2 * (m * (d * 2 ^ e.toNat)) + d * 2 ^ e.toNat
+        · exact Or.inr (h5 (Or.inr b))
+        · exact Or.inl ⟨a, b⟩
+    · by_cases hm : m = 2 ^ 52
+      · exact Or.inr (h6 hm)
+      · exact Or.inl hm
 
 /-- 0.29 parses to 0x3FD28F5C28F5C28F: m = 5224175567749775, e = -54 -/
 example : IsRnd 29 100 5224175567749775 (-54) := by decide +kernel
@@ -20,5 +66,9 @@ example : IsRnd 29 100 5224175567749775 (-54) := by decide +kernel
 /-- … and 0.29 * 100 rounds to 28.999999999999996 (m = 0x1CFFFFFFFFFFFF, e = -48), whose integer part is 28 -/
 example : IsRnd (5224175567749775 * 100) (2 ^ 54) 8162774324609023 (-48) := by decide +kernel
 example : 8162774324609023 / 2 ^ 48 = 28 := by decide +kernel
+
+/-- the boundary case: (2^53 - 3/4) is nearest to 2^53 - 1, not to 2^53 = 2^52 * 2 -/
+example : IsRnd (4 * 2 ^ 53 - 3) 4 (2 ^ 53 - 1) 0 ∧ ¬ IsRnd (4 * 2 ^ 53 - 3) 4 (2 ^ 52) 1 := by
+  decide +kernel
 
 end Spine.Rnd
